@@ -33,7 +33,14 @@ def gen_shape(rng, maxorder, op, maxdim=3, maxrank=3, minorder=1):
 
 
 def gen_tt(rng, rows, cols, ranks, cplx, mode, nonneg=False):
-    return TT([gen_entries(rng, (ranks[i], rows[i], cols[i], ranks[i + 1]), cplx, mode, nonneg) for i in range(len(rows))])
+    """cores of one dtype, or (40 % of the complex trains of order > 1) real and complex cores mixed"""
+    n = len(rows)
+    flags = [bool(cplx)] * n
+    if cplx and n > 1 and rng.random() < 0.4:
+        flags = [rng.random() < 0.5 for _ in range(n)]
+        if not any(flags):
+            flags[rng.randrange(n)] = True
+    return TT([gen_entries(rng, (ranks[i], rows[i], cols[i], ranks[i + 1]), flags[i], mode, nonneg) for i in range(n)])
 
 
 def rranks(rng, order, maxrank=3):
